@@ -5,6 +5,7 @@ import (
 	"go/constant"
 	"go/token"
 	"go/types"
+	"strings"
 
 	"cvsslint/internal/facts"
 	"cvsslint/internal/ir"
@@ -306,6 +307,10 @@ func (e *Env) decodeSkeleton(l *facts.Level, v3 bool) {
 		c.Check(okEq, "canonical-order", who, e.P.Pos(m.Success.Pos()), "success is reached only if the input equals the own-level re-encoding (vector == enc)", "the success return is not dominated by vector == own-level Encode() result")
 	}
 
+	// --- no rejection other than the ones the specification has: every error return is caused by the prefix,
+	// by decodeOne, by the remembered unsupported-metric error, or by the completeness / canonical-form gate
+	e.decodeRejections(m, who, v3)
+
 	// --- returns: (obj, nil) once, (nil, non-nil error) otherwise
 	for _, r := range m.Returns {
 		cons := fmt.Sprintf("%s return at %s", who, e.P.Pos(r.Pos()))
@@ -400,7 +405,7 @@ func (e *Env) getVersionShape(gv *types.Func) {
 	c := e.C
 	who := fname(gv)
 	sf := e.P.SSAFunc(gv)
-	leaves, err := ir.Leaves(sf, ir.LeafOptions{Forward: true, Effects: true})
+	leaves, err := ir.Leaves(sf, ir.LeafOptions{Forward: true, Effects: true, Inline: e.inlineHelpers()})
 	if err != nil {
 		c.Undecided("version-prefix", who, e.P.Pos(gv.Pos()), err.Error())
 		return
@@ -642,5 +647,69 @@ func (e *Env) deferredError(m *decodeModel, who string, sconds []*ir.Term) {
 	}
 	if ok {
 		c.Ok("deferred-error", who, e.P.Pos(m.One.Pos()), "other errors abort at once as errs.Wrap(err); 'unsupported metric' is remembered, never reset, returned after the scan; success only if none was remembered")
+	}
+}
+
+// decodeRejections classifies every error return of a Decode by the dominating
+// condition that leads to it; an error return with any other cause rejects
+// inputs the specification accepts (or reports a defect they do not have).
+func (e *Env) decodeRejections(m *decodeModel, who string, v3 bool) {
+	c := e.C
+	l := m.Level
+	rT := m.B.Term(m.One)
+	causes := []*ir.Term{ir.Bin("!=", rT, nilOf(errorType))}
+	// remembered error
+	if m.Header != nil {
+		for _, in := range m.Header.Instrs {
+			if p, ok := in.(*ssa.Phi); ok && types.Identical(p.Type(), errorType) {
+				causes = append(causes, ir.Bin("!=", m.B.Term(p), nilOf(errorType)))
+			}
+		}
+	}
+	if v3 {
+		if gv := e.P.LookupFunc(l.Version.Pkg, "GetVersion"); gv != nil {
+			for _, b := range m.SF.Blocks {
+				for _, in := range b.Instrs {
+					if x, ok := in.(*ssa.Call); ok && x.Call.StaticCallee() != nil && x.Call.StaticCallee().Object() == types.Object(gv) {
+						ct := m.B.Term(x)
+						ex := func(i int) *ir.Term { return &ir.Term{Op: ir.OExtract, N: i, Args: []*ir.Term{ct}} }
+						causes = append(causes, ir.Bin("!=", ex(1), nilOf(errorType)))
+						verT := gv.Type().(*types.Signature).Results().At(0).Type()
+						if en := e.F.EnumOf(verT); en != nil && en.Zero != nil {
+							causes = append(causes, ir.Bin("==", ir.Const(en.Zero.Val(), verT), ex(0)))
+						}
+					}
+				}
+			}
+		}
+		if ge := l.Method("GetError"); ge != nil {
+			causes = append(causes, ir.Bin("!=", ir.Call(ge, m.ObjT), nilOf(errorType)))
+		}
+	} else if enc := l.Method("Encode"); enc != nil {
+		call := ir.Call(enc, m.ObjT)
+		ex := func(i int) *ir.Term { return &ir.Term{Op: ir.OExtract, N: i, Args: []*ir.Term{call}} }
+		causes = append(causes, ir.Bin("!=", ex(1), nilOf(errorType)), ir.Bin("!=", ex(0), &ir.Term{Op: ir.OParam, N: 1}))
+	}
+	for _, r := range m.Returns {
+		if r == m.Success || len(r.Results) != 2 {
+			continue
+		}
+		conds := ir.DomConds(m.B, r.Block())
+		ok := false
+		for _, cause := range causes {
+			if ir.HasCond(conds, cause) {
+				ok = true
+			}
+		}
+		cons := fmt.Sprintf("%s return at %s", who, e.P.Pos(r.Pos()))
+		if ok {
+			c.Ok("decode-rejections", cons, e.P.Pos(r.Pos()), "rejection caused by the prefix, a token, the remembered unsupported metric or the completeness/canonical-form gate")
+		} else {
+			var cs []string
+			for _, g := range conds {
+				cs = append(cs, g.Pretty())
+			}
+			c.Fail("decode-rejections", cons, e.P.Pos(r.Pos()), "an error return whose cause is none of the specification's (prefix, token, unsupported metric, completeness, canonical form): reached under "+clip(strings.Join(cs, " & ")))
+		}
 	}
 }
